@@ -90,6 +90,56 @@ class SymMap:
     def __hash__(self):
         return hash(self.pin())
 
+    def as_int(self):
+        """the looked-up value as one symbolic integer (all values must be integers on this path: a None / text value
+        still possible under the path condition makes this fork first)"""
+        vals = list(self.mapping.values()) + [self.default]
+        if not all(isinstance(v, int) and not isinstance(v, bool) for v in vals):
+            ok = z3.simplify(self.cond_where(lambda v: isinstance(v, int) and not isinstance(v, bool)))
+            if not EX().branch(ok):
+                raise TypeError("unsupported operand: the looked-up value is not an integer")
+        t = None
+        for k, v in self.mapping.items():
+            if isinstance(v, int) and not isinstance(v, bool):
+                t = SymInt.lift(v) if t is None else P.ite(truth(self.key == k), SymInt.lift(v), t)
+        if isinstance(self.default, int) and not isinstance(self.default, bool):
+            # default applies when no key matches
+            d = SymInt.lift(self.default)
+            t = d if t is None else P.ite(z3.Not(self._member()), d, t)
+        if t is None:
+            raise TypeError("no integer value")
+        return SymInt.lift(t)
+
+    def __and__(self, o):
+        return self.as_int() & o
+
+    def __rand__(self, o):
+        return o & self.as_int()
+
+    def __or__(self, o):
+        return self.as_int() | o
+
+    def __ror__(self, o):
+        return o | self.as_int()
+
+    def __lshift__(self, o):
+        return self.as_int() << o
+
+    def __rshift__(self, o):
+        return self.as_int() >> o
+
+    def __lt__(self, o):
+        return self.as_int() < o
+
+    def __le__(self, o):
+        return self.as_int() <= o
+
+    def __gt__(self, o):
+        return self.as_int() > o
+
+    def __ge__(self, o):
+        return self.as_int() >= o
+
     def __add__(self, o):
         if isinstance(o, SymMap):
             raise Unsupported("SymMap + SymMap")
@@ -217,6 +267,14 @@ class SymDict(dict):
     def _table_lookup(self, k, default):
         if type(k).__name__ == "SymRope":
             return self._rope_lookup(k, default)
+        if isinstance(k, SymMap) and not any(_is_sym_key(x) for x in dict.keys(self)):
+            # a looked-up value used as the key of another concrete table: the composition is again a finite map of the original key
+            def thru(v):
+                try:
+                    return dict.get(self, v, default)
+                except TypeError:
+                    return default
+            return SymMap(k.key, {kk: thru(v) for kk, v in k.mapping.items()}, thru(k.default), (k.name, self.sx_name))
         keys = list(dict.keys(self))
         if isinstance(k, SymInt) and _is_sym_key(k) and len(keys) > BIG and all(
                 isinstance(x, int) and not isinstance(x, SymInt) for x in keys):
